@@ -3,7 +3,7 @@ import collections
 import common as C
 
 ID = "C18"
-COQ_TARGETS = ["Exec/C18.vo", "Properties/C18.vo"]
+COQ_TARGETS = ["Exec/C07.vo", "Exec/C18.vo", "Properties/C18.vo"]
 THEOREMS = ["C18_sample_compliant", "C18_range_nonempty", "C18_sampler_total", "C18_nonvacuous"]
 LEVEL_TEXT = ("Coq theorems for all limits, every half period and EVERY outcome of the random generator (the uniform variates are "
               "universally quantified in [0,1)): each drawn vector is accepted by the same constraints; the range handed to the generator "
@@ -58,6 +58,20 @@ def correspondence(tier, seed, n=None):
             why = f"joint {i}: draws [{glo},{ghi}] do not cover the model image [{lo},{hi})"
         if why:
             dis.append({"why": why, "record": r})
+    # the constraints' own verdict on a draw: the C07 model (compute_centers + inside_bounds) on the first draw of every case
+    sel = [r for r in cases if not r["panic"]]
+    outs2 = C.coq_eval("c18c", "From VF Require Import Exec.C07.", [f"run_c07 0 {C.qlist([C.frac(h) for h in r['from']])} {C.qlist([C.frac(h) for h in r['to']])} {C.qlist([C.frac(h) for h in r['draw']])}" for r in sel], shard=200)
+    for r, zs in zip(sel, outs2):
+        if zs[0] != 1:
+            dis.append({"why": "model constructor failed", "record": r}); continue
+        flags = [zs[2 + 8 * i + 5: 2 + 8 * i + 8] for i in range(6)]
+        if any(len(set(fl)) > 1 for fl in flags):
+            undec += 1                      # the draw is within 1e-9 of an arc end
+            continue
+        compared += 1
+        dist["draw_verdict"] += 1
+        if (zs[1] == 1) != bool(r["draw_ok"]):
+            dis.append({"why": f"compliant(draw): model {zs[1] == 1}, implementation {r['draw_ok']}", "record": {k_: r[k_] for k_ in ("case", "from", "to", "draw", "draw_ok")}})
     samples = [{"from": [C.f64(h) for h in r["from"]], "to": [C.f64(h) for h in r["to"]], "lo": [C.f64(h) for h in r["lo"]],
                 "hi": [C.f64(h) for h in r["hi"]], "bad": r["bad"]} for r in cases[:2]]
     return {"evaluations": len(cases) * 1500, "compared": compared, "undecided": undec, "disagreements": dis, "failures": failures,
